@@ -23,7 +23,7 @@ MANIFEST = {
              "hole is declared only with more than BLACK_HOLE_THRESHOLD recorded bursts, each made only of packets larger "
              "than min_mtu. Refuted with vm_compute witnesses: F8 on the code before the fix commit (fallback raised the "
              "estimate above the peer limit), F8b (disabled MtuDiscovery forgets the peer limit; known finding), "
-             "minimum_change 0/1 (unvalidated config). NOT proved: search_terminates (log bound; statement kept as "
+             "minimum_change 0/1/2 (MtuDiscoveryConfig::minimum_change validates nothing: probes not above the current MTU, estimate lowered below min_mtu; known finding mtud-minimum-change-below-3; initial_mtu > upper_bound itself is legal and proved harmless: no probe). NOT proved: search_terminates (log bound; statement kept as "
              "C13_full_search_terminates) and the 'larger than any more recently acknowledged packet' clause of "
              "black_hole_needs_evidence — both only covered by the differential correspondence. The 'keeps delivering' "
              "liveness clause and datagram sizes are simulator-level."),
